@@ -3887,7 +3887,9 @@ class FuncSub(ValueFunc):
         if a.isDate():
             if b.isDate():
                 diff = to_oa_date(a.value) - to_oa_date(b.value)
-                return ValueInt(diff)
+                millis = round(diff * 86400000)
+                days = abs(millis) // 86400000
+                return ValueInt(days if millis >= 0 else -days)
             return ValueDate(
                 to_date(to_oa_date(a.value) - args.getAsDecimal("b").value)
             )
